@@ -603,7 +603,7 @@ def analyze(ctx, want):
             ob("C18.d", "io-error-is-returned-not-unwrapped", ok, "File::create Err -> %s" % (S.fstr(p.end[1])[:50] if p.end[0] == "return" else p.end[0]), gd.loc())
         elif fv == "Ok":
             seen.add("io-ok")
-            rc = p.calls(r"dot::compiled_dfa_render::")
+            rc = p.calls(r"dot::compiled_dfa_render(::|$)")
             ok = len(rc) == 1
             if ok:
                 mi_ = re.search(r"(item@bb\d+)", S.fstr(fp[1][2])) if fp and len(fp[1]) > 2 else None
